@@ -86,7 +86,7 @@ inductive Sup : Node → Prop
   | markup (q a kids) : notBlock q → moinMethod q = some .inline_markup → SupL kids → Sup (.elem q a kids)
   | leaf (q a kids m) : notBlock q → moinMethod q = some m → leafMethod m = true → noText kids → Sup (.elem q a kids)
   | through (q a kids) : notBlock q → moinMethod q = some .textToString → SupL kids → Sup (.elem q a kids)
-  | box (q a kids) : (q = tTextBox ∨ q = tFrame ∨ q = tSection) → SupL kids → Sup (.elem q a kids)
+  | box (q a kids) : isContainer q = true → SupL kids → Sup (.elem q a kids)
   | para (q a kids) : (q = tP ∨ q = tH) → ParaOK a → SupL kids → Sup (.elem q a kids)
   | list (a kids) : ItemsL kids → Sup (.elem tList a kids)
   | table (a kids) : RowsL kids → Sup (.elem tTable a kids)
@@ -125,10 +125,10 @@ inductive TopL : List Node → Prop
   | nil : TopL []
   | ws (s rest) : wsOnly s → TopL rest → TopL (.text s :: rest)
   | list (a kids rest) : ItemsL kids → TopL rest → TopL (.elem tList a kids :: rest)
-  | sect (a kids rest) : SupL kids → TopL rest → TopL (.elem tSection a kids :: rest)
+  | box (q a kids rest) : isContainer q = true → SupL kids → TopL rest → TopL (.elem q a kids :: rest)
   | table (a kids rest) : RowsL kids → TopL rest → TopL (.elem tTable a kids :: rest)
   | para (q a kids rest) : (q = tPage ∨ q = tP ∨ q = tH) → ParaOK a → SupL kids → TopL rest → TopL (.elem q a kids :: rest)
-  | other (q a kids rest) : q ≠ tList → q ≠ tSection → q ≠ tTable → q ≠ tPage → q ≠ tP → q ≠ tH → q ≠ tNote →
+  | other (q a kids rest) : q ≠ tList → isContainer q = false → q ≠ tTable → q ≠ tPage → q ≠ tP → q ≠ tH → q ≠ tNote →
       noText kids → TopL rest → TopL (.elem q a kids :: rest)
 
 /-! ## what one conversion step guarantees -/
@@ -171,31 +171,27 @@ theorem ne_note_of_method {q : Str} {m : MName} (h : moinMethod q = some m) (hm 
 
 theorem nodeStr_through (sty : Styles) (st : MSt) (q : Str) (a : Attrs) (kids : List Node) (h : notBlock q)
     (hm : moinMethod q = some .textToString) : nodeStr sty st (.elem q a kids) = kidsStr sty st kids := by
-  obtain ⟨h1, h2, h3, h4, h5, h6, h7⟩ := h
+  obtain ⟨h1, h3, h4, h5, h6, h7⟩ := h
   rw [nodeStr.eq_def]
-  simp [h1, h2, h3, h4, h5, h6, h7, hm]
+  simp [h1, h3, h4, h5, h6, h7, hm]
 
 theorem nodeStr_box (sty : Styles) (st : MSt) (q : Str) (a : Attrs) (kids : List Node)
-    (h : q = tTextBox ∨ q = tFrame ∨ q = tSection) : nodeStr sty st (.elem q a kids) = kidsStr sty st kids := by
-  rcases h with rfl | rfl | rfl
-  · rw [nodeStr.eq_def]; simp
-  · rw [nodeStr.eq_def]; simp
-  · have h1 : tSection ≠ tTextBox := by decide
-    have h2 : tSection ≠ tFrame := by decide
-    have h3 : tSection ≠ tP := by decide
-    have h4 : tSection ≠ tH := by decide
-    have h5 : tSection ≠ tList := by decide
-    have h6 : tSection ≠ tTable := by decide
-    rw [nodeStr.eq_def]; simp [h1, h2, h3, h4, h5, h6]
+    (h : isContainer q = true) : nodeStr sty st (.elem q a kids) = kidsStr sty st kids := by
+  rw [nodeStr.eq_def]; simp [h]
+
+theorem ne_note_of_container {q : Str} (h : isContainer q = true) : q ≠ tNote := by
+  rintro rfl; rw [isContainer_note] at h; cases h
+
+theorem ne_list_of_container {q : Str} (h : isContainer q = true) : q ≠ tList := by
+  rintro rfl; rw [isContainer_list] at h; cases h
 
 theorem nodeStr_para (sty : Styles) (st : MSt) (q : Str) (a : Attrs) (kids : List Node) (h : q = tP ∨ q = tH) :
     nodeStr sty st (.elem q a kids) =
       match kidsStr sty st kids with
       | .error e => .error e
       | .ok (t, st1) => paraPost sty q a (inlineMarkup sty a t) st1 := by
-  have h1 : q ≠ tTextBox := by rcases h with rfl | rfl <;> decide
-  have h2 : q ≠ tFrame := by rcases h with rfl | rfl <;> decide
-  rw [nodeStr.eq_def]; simp [h1, h2, h]
+  have h1 : isContainer q = false := by rcases h with rfl | rfl <;> first | exact isContainer_p | exact isContainer_h
+  rw [nodeStr.eq_def]; simp [h1, h]
   cases kidsStr sty st kids with
   | error e => rfl
   | ok v => rfl
@@ -203,35 +199,32 @@ theorem nodeStr_para (sty : Styles) (st : MSt) (q : Str) (a : Attrs) (kids : Lis
 theorem nodeStr_list (sty : Styles) (st : MSt) (a : Attrs) (kids : List Node) :
     nodeStr sty st (.elem tList a kids) =
       itemsStr sty ((sty.list.lookup (getAttr a kStyleName)).getD false) 0 { st with last := some tList } kids := by
-  have h1 : tList ≠ tTextBox := by decide
-  have h2 : tList ≠ tFrame := by decide
+  have h1 := isContainer_list
   have h3 : tList ≠ tP := by decide
   have h4 : tList ≠ tH := by decide
-  rw [nodeStr.eq_def]; simp [h1, h2, h3, h4]
+  rw [nodeStr.eq_def]; simp [h1, h3, h4]
 
 theorem nodeStr_table (sty : Styles) (st : MSt) (a : Attrs) (kids : List Node) :
     nodeStr sty st (.elem tTable a kids) = rowsStr sty { st with last := some tTable } kids := by
-  have h1 : tTable ≠ tTextBox := by decide
-  have h2 : tTable ≠ tFrame := by decide
+  have h1 := isContainer_table
   have h3 : tTable ≠ tP := by decide
   have h4 : tTable ≠ tH := by decide
   have h5 : tTable ≠ tList := by decide
-  rw [nodeStr.eq_def]; simp [h1, h2, h3, h4, h5]
+  rw [nodeStr.eq_def]; simp [h1, h3, h4, h5]
 
 theorem nodeStr_note (sty : Styles) (st : MSt) (a ac ab : Attrs) (ck bk : List Node) :
     nodeStr sty st (.elem tNote a [.elem tCitation ac ck, .elem tNoteBody ab bk]) =
       match kidsStr sty st bk with
       | .error e => .error e
       | .ok (t, st1) => .ok ([94] ++ texts ck ++ [94], { st1 with foot := st1.foot ++ [(texts ck, t)] }) := by
-  have h1 : tNote ≠ tTextBox := by decide
-  have h2 : tNote ≠ tFrame := by decide
+  have h1 := isContainer_note
   have h3 : tNote ≠ tP := by decide
   have h4 : tNote ≠ tH := by decide
   have h5 : tNote ≠ tList := by decide
   have h6 : tNote ≠ tTable := by decide
   have h7 : tNote ≠ tSection := by decide
   have hm : moinMethod tNote = some .text_note := by decide
-  rw [nodeStr.eq_def]; simp [h1, h2, h3, h4, h5, h6, h7, hm, texts]
+  rw [nodeStr.eq_def]; simp [h1, h3, h4, h5, h6, h7, hm, texts]
   cases kidsStr sty st bk with
   | error e => rfl
   | ok v => rfl
@@ -274,7 +267,7 @@ theorem nodeStr_sup (sty : Styles) (st : MSt) (n : Node) (h : Sup n) :
     rw [nodeStr_through sty st q a kids hb hm, vmain_elem a kids hne, vnotes_elem a kids hne]
     exact kidsStr_sup sty st kids hk
   | box q a kids hq hk =>
-    have hne : q ≠ tNote := by rcases hq with rfl | rfl | rfl <;> decide
+    have hne : q ≠ tNote := ne_note_of_container hq
     rw [nodeStr_box sty st q a kids hq, vmain_elem a kids hne, vnotes_elem a kids hne]
     exact kidsStr_sup sty st kids hk
   | para q a kids hq hp hk =>
@@ -443,7 +436,7 @@ theorem flatten_push (t : Str) (ts : List Str) : (if t.isEmpty then ts else t ::
 theorem top_cons (sty : Styles) (st : MSt) (q : Str) (a : Attrs) (kids rest : List Node) (r1 : M (Str × MSt))
     (m1 n1 m2 n2 : Str)
     (hr : (if q = tList then some (itemsStr sty ((sty.list.lookup (getAttr a kStyleName)).getD false) 0 { st with last := some q } kids)
-      else if q = tSection then some (kidsStr sty st kids)
+      else if isContainer q then some (kidsStr sty st kids)
       else if q = tTable then some (rowsStr sty { st with last := some q } kids)
       else if q = tPage || q = tP || q = tH then
         some (match kidsStr sty st kids with
@@ -468,7 +461,7 @@ theorem top_cons (sty : Styles) (st : MSt) (q : Str) (a : Attrs) (kids rest : Li
   · rw [flatten_push, nonWs_append, nonWs_append]; exact hm1.append hm2
 
 theorem top_skip (sty : Styles) (st : MSt) (q : Str) (a : Attrs) (kids rest : List Node)
-    (h1 : q ≠ tList) (h2 : q ≠ tSection) (h3 : q ≠ tTable) (h4 : q ≠ tPage) (h5 : q ≠ tP) (h6 : q ≠ tH) :
+    (h1 : q ≠ tList) (h2 : isContainer q = false) (h3 : q ≠ tTable) (h4 : q ≠ tPage) (h5 : q ≠ tP) (h6 : q ≠ tH) :
     topStr sty st (.elem q a kids :: rest) = topStr sty st rest := by
   rw [topStr]; simp [h1, h2, h3, h4, h5, h6]
 
@@ -488,17 +481,17 @@ theorem topStr_sup (sty : Styles) (l : List Node) (h : TopL l) :
     simp only [vmainL, vnotesL]; rw [vmain_elem a kids hne, vnotes_elem a kids hne]
     exact top_cons sty st tList a kids rest _ _ _ _ _ (by simp)
       (itemsStr_sup sty ((sty.list.lookup (getAttr a kStyleName)).getD false) 0 { st with last := some tList } kids hk) ih
-  | sect a kids rest hk _ ih =>
+  | box q a kids rest hq hk _ ih =>
     intro st
-    have hne : tSection ≠ tNote := by decide
-    have h1 : tSection ≠ tList := by decide
+    have hne : q ≠ tNote := ne_note_of_container hq
+    have h1 : q ≠ tList := ne_list_of_container hq
     simp only [vmainL, vnotesL]; rw [vmain_elem a kids hne, vnotes_elem a kids hne]
-    exact top_cons sty st tSection a kids rest _ _ _ _ _ (by simp [h1]) (kidsStr_sup sty st kids hk) ih
+    exact top_cons sty st q a kids rest _ _ _ _ _ (by simp [h1, hq]) (kidsStr_sup sty st kids hk) ih
   | table a kids rest hk _ ih =>
     intro st
     have hne : tTable ≠ tNote := by decide
     have h1 : tTable ≠ tList := by decide
-    have h2 : tTable ≠ tSection := by decide
+    have h2 := isContainer_table
     simp only [vmainL, vnotesL]; rw [vmain_elem a kids hne, vnotes_elem a kids hne]
     exact top_cons sty st tTable a kids rest _ _ _ _ _ (by simp [h1, h2])
       (rowsStr_sup sty { st with last := some tTable } kids hk) ih
@@ -506,7 +499,8 @@ theorem topStr_sup (sty : Styles) (l : List Node) (h : TopL l) :
     intro st
     have hne : q ≠ tNote := by rcases hq with rfl | rfl | rfl <;> decide
     have h1 : q ≠ tList := by rcases hq with rfl | rfl | rfl <;> decide
-    have h2 : q ≠ tSection := by rcases hq with rfl | rfl | rfl <;> decide
+    have h2 : isContainer q = false := by
+      rcases hq with rfl | rfl | rfl <;> first | exact isContainer_page | exact isContainer_p | exact isContainer_h
     have h3 : q ≠ tTable := by rcases hq with rfl | rfl | rfl <;> decide
     have h4 : (q = tPage ∨ q = tP) ∨ q = tH := by rcases hq with h | h | h <;> simp [h]
     simp only [vmainL, vnotesL]; rw [vmain_elem a kids hne, vnotes_elem a kids hne]
@@ -526,9 +520,11 @@ theorem topStr_sup (sty : Styles) (l : List Node) (h : TopL l) :
     * there is an office:body whose first element child is the text element, with children `blocks`,
     * `blocks` is in `TopL`: indentation, paragraphs, headings and draw:page (`ParaOK`: outline level absent or decimal),
       lists (`ItemsL` / `SubL`: items with paragraphs, headings and nested lists of any depth), tables (`RowsL` / `CellsL`:
-      rows, header rows, any other child without text; cells with running text), sections, and other children without text;
+      rows, header rows, any other child without text; cells with running text), the containers (`isContainer`, the
+      generated `CONTAINER_TAGS`: sections, frames, text boxes, drawing shapes, numbered paragraphs, the indexes with
+      index title and index body - af61005), and other children without text;
       running text (`Sup`) is character data, the `inline_markup` elements (spans, links, bookmark references …), text:s /
-      tab / line-break / images / ignored elements without text, frames, text boxes, sections, paragraphs, headings, lists,
+      tab / line-break / images / ignored and template elements (…-source) without text, the containers, paragraphs, headings, lists,
       tables, and notes of the shape [text:note-citation [character data], text:note-body [running text]] — also inside
       note bodies.
     EXCLUDED, because the converter (and the model) drops their text — each tested on the real converter:
@@ -537,8 +533,7 @@ theorem topStr_sup (sty : Styles) (l : List Node) (h : TopL l) :
     * children of a list item other than text:p / text:h / text:list (e.g. text:number),
     * children of a table other than rows and header rows that contain text: table:table-rows, table:table-row-group
       (known, findings/C18.md "Round 5"),
-    * children of office:text other than p / h / list / table / section / draw:page that contain text: a page-anchored
-      draw:frame with a text box, text:table-of-content and the other indexes,
+    * children of office:text other than p / h / list / table / draw:page / the containers that contain text,
     * elements without method in `ODF2MoinMoin.elements` (written ` {tag} `), elements inside a note citation. -/
 inductive MoinSupported (stylesDoc contentDoc : Node) : List Node → Prop
   | mk (sty : Styles) (body : Node) (bs : List Node) (textEl : Node) (more : List Node) :
@@ -620,7 +615,7 @@ example : MoinSupported exStyles (exContent exBlocks) exBlocks := by
   have para : ∀ s, Sup (.elem tP [] [.text s]) := fun s =>
     .para tP [] _ (Or.inl rfl) (Or.inl rfl) (.cons _ _ (.text s) .nil)
   have one : ∀ n, Sup n → SupL [n] := fun n h => .cons _ _ h .nil
-  have nbSpan : notBlock tSpan := by refine ⟨?_, ?_, ?_, ?_, ?_, ?_, ?_⟩ <;> decide
+  have nbSpan : notBlock tSpan := by refine ⟨by decide +kernel, ?_, ?_, ?_, ?_, ?_⟩ <;> decide
   have item : ∀ s rest, SubL rest → SubL (.elem tP [] [.text s] :: rest) := fun s rest h =>
     .para tP [] _ rest (Or.inl rfl) (Or.inl rfl) (.cons _ _ (.text s) .nil) h
   have cell : ∀ s, CellsL [.elem tCell [] [.elem tP [] [.text s]]] := fun s =>
@@ -637,8 +632,8 @@ example : MoinSupported exStyles (exContent exBlocks) exBlocks := by
     refine .table [] _ _ ?_ ?_
     · exact .other tColumn [] [] _ (by decide) (by decide) (by decide) ⟨rfl, rfl⟩
         (.header [] _ _ (.row [] _ [] (cell _) .nil) (.row [] _ [] (cell _) .nil))
-    exact .sect [] _ [] (one _ (.para tP [] _ (Or.inl rfl) (Or.inl rfl) (.cons _ _ (.text _)
-      (one _ (.box tFrame [] _ (Or.inr (Or.inl rfl)) (one _ (.box tTextBox [] _ (Or.inl rfl) (one _ (para _))))))))) .nil
+    exact .box tSection [] _ [] isContainer_section (one _ (.para tP [] _ (Or.inl rfl) (Or.inl rfl) (.cons _ _ (.text _)
+      (one _ (.box tFrame [] _ isContainer_frame (one _ (.box tTextBox [] _ isContainer_textBox (one _ (para _))))))))) .nil
   exact MoinSupported.mk {} (.elem tBody [] [.elem tText [] exBlocks]) [] (.elem tText [] exBlocks) [] rfl rfl rfl htop
 
 /-- its visible text: T a b 1 i j h c s x, then the note body n; and what the model writes for it -/
@@ -654,12 +649,6 @@ example : (Moin.toString exStyles (exContent exBlocks)).toOption =
 def tNumber : Str := [116, 101, 120, 116, 58, 110, 117, 109, 98, 101, 114]  -- text:number
 def tRows : Str := [116, 97, 98, 108, 101, 58, 116, 97, 98, 108, 101, 45, 114, 111, 119, 115]  -- table:table-rows
 
-/-- a page-anchored frame with a text box between two paragraphs, directly in office:text: `<p>a</p><frame><text-box>
-    <p>x</p></text-box></frame><p>b</p>` → "a\n\nb\n" — the x is lost (the loop of `toString` has no case for draw:frame) -/
-example : (Moin.toString exStyles (exContent [.elem tP [] [.text [97]],
-    .elem tFrame [] [.elem tTextBox [] [.elem tP [] [.text [120]]]], .elem tP [] [.text [98]]])).toOption =
-    some [97, 10, 10, 98, 10] := by decide +kernel
-
 /-- `<list><item><number>1.</number><p>i</p></item></list>` → " * i\n\n": the text:number is lost -/
 example : (Moin.toString exStyles (exContent [.elem tList [] [.elem tListItem []
     [.elem tNumber [] [.text [49, 46]], .elem tP [] [.text [105]]]]])).toOption = some [32, 42, 32, 105, 10, 10] := by
@@ -669,16 +658,16 @@ example : (Moin.toString exStyles (exContent [.elem tList [] [.elem tListItem []
 example : (Moin.toString exStyles (exContent [.elem tTable [] [.elem tRows [] [.elem tRow [] [.elem tCell []
     [.elem tP [] [.text [99]]]]]]])).toOption = some [] := by decide +kernel
 
-/-! ## block-level containers whose text the model (like odf2moinmoin.py) loses — the PENDING classes of harness/c18.py
+/-! ## block-level containers (repair af61005): the former PENDING classes of harness/c18.py are converted completely
 
   Each witness is the minimal document of the harness corpus (`moin-top-frame`, `moin-top-shape`, `shape-in-paragraph`,
   `moin-top-index`, `moin-index-in-section`, `moin-top-numbered-paragraph`, `moin-numbered-paragraph-in-cell`), as minidom
-  shows its content.xml; the real converter gives the same strings (correspondence).  `lostIn` says: the conversion
-  succeeds and the visible text is NOT a subsequence of the output (the lost text is written with digits, which no
-  placeholder ` {tag} ` contains) - the conclusion of
-  `moin_supported_total_complete_partial` fails, so the exclusions of `MoinSupported` cannot simply be dropped. -/
+  shows its content.xml; the real converter gives the same strings (correspondence).  They are `MoinSupported` documents
+  now (`witnesses_supported`), so `moin_supported_total_complete_partial` covers them; `lostIn w = false` states the same
+  for the single document by evaluation (the text inside the container is written with digits). -/
 
 def tToc : Str := [116, 101, 120, 116, 58, 116, 97, 98, 108, 101, 45, 111, 102, 45, 99, 111, 110, 116, 101, 110, 116]  -- text:table-of-content
+def tTocSource : Str := [116, 101, 120, 116, 58, 116, 97, 98, 108, 101, 45, 111, 102, 45, 99, 111, 110, 116, 101, 110, 116, 45, 115, 111, 117, 114, 99, 101]  -- text:table-of-content-source
 def tIndexBody : Str := [116, 101, 120, 116, 58, 105, 110, 100, 101, 120, 45, 98, 111, 100, 121]  -- text:index-body
 def tIndexTitle : Str := [116, 101, 120, 116, 58, 105, 110, 100, 101, 120, 45, 116, 105, 116, 108, 101]  -- text:index-title
 def tNumPar : Str := [116, 101, 120, 116, 58, 110, 117, 109, 98, 101, 114, 101, 100, 45, 112, 97, 114, 97, 103, 114, 97, 112, 104]  -- text:numbered-paragraph
@@ -692,56 +681,104 @@ def lostIn (blocks : List Node) : Bool :=
 
 def par (c : Nat) : Node := .elem tP [] [.text [c]]
 
+/-- `<table-of-content><table-of-content-source/><index-body><index-title><p>1</p></index-title><p>2</p></index-body>
+    </table-of-content>` -/
+def toc : Node := .elem tToc [] [.elem tTocSource [] [], .elem tIndexBody [] [.elem tIndexTitle [] [par 49], par 50]]
+
 /-- `<p>a</p><frame><text-box><p>2</p></text-box></frame><p>b</p>` (m-top-frame) -/
 def wTopFrame : List Node := [par 97, .elem tFrame [] [.elem tTextBox [] [par 50]], par 98]
 /-- `<p>a</p><rect><p>2</p></rect><p>b</p>` (m-top-shape) -/
 def wTopShape : List Node := [par 97, .elem tRect [] [par 50], par 98]
-/-- `<p>a<rect><p>2</p></rect>b</p>` (m-nested-shape: written " {draw:rect} ") -/
+/-- `<p>a<rect><p>2</p></rect>b</p>` (m-nested-shape) -/
 def wNestedShape : List Node := [.elem tP [] [.text [97], .elem tRect [] [par 50], .text [98]]]
-/-- `<p>a</p><table-of-content><index-body><index-title><p>1</p></index-title><p>2</p></index-body></table-of-content>
-    <p>b</p>` (m-top-index) -/
-def wTopIndex : List Node :=
-  [par 97, .elem tToc [] [.elem tIndexBody [] [.elem tIndexTitle [] [par 49], par 50]], par 98]
-/-- the same index inside a section (m-nested-index: written " {text:table-of-content} ") -/
-def wNestedIndex : List Node :=
-  [.elem tSection [] [par 97, .elem tToc [] [.elem tIndexBody [] [.elem tIndexTitle [] [par 49], par 50]], par 98]]
+/-- `<p>a</p>` the table of content `<p>b</p>` (m-top-index) -/
+def wTopIndex : List Node := [par 97, toc, par 98]
+/-- the same inside a section (m-nested-index) -/
+def wNestedIndex : List Node := [.elem tSection [] [par 97, toc, par 98]]
 /-- `<p>a</p><numbered-paragraph><p>2</p></numbered-paragraph><p>b</p>` (m-top-numbered-paragraph) -/
 def wTopNumPar : List Node := [par 97, .elem tNumPar [] [par 50], par 98]
-/-- the numbered paragraph inside a table cell (m-nested-numbered-paragraph: written " {text:numbered-paragraph} ") -/
+/-- the numbered paragraph inside a table cell (m-nested-numbered-paragraph) -/
 def wNestedNumPar : List Node :=
   [.elem tTable [] [.elem tRow [] [.elem tCell [] [par 97, .elem tNumPar [] [par 50], par 98]]]]
 
-/-- **C18 (MoinMoin, pending m-top-frame)**: the text box of a frame that is a child of office:text is lost -/
-theorem moin_top_frame_text_lost : lostIn wTopFrame = true := by decide +kernel
-/-- **C18 (MoinMoin, pending m-top-shape)**: the paragraphs of a drawing shape that is a child of office:text are lost -/
-theorem moin_top_shape_text_lost : lostIn wTopShape = true := by decide +kernel
-/-- **C18 (MoinMoin, pending m-nested-shape)**: a drawing shape inside running text becomes " {draw:rect} " -/
-theorem moin_nested_shape_text_lost : lostIn wNestedShape = true := by decide +kernel
-/-- **C18 (MoinMoin, pending m-top-index)**: a table of content that is a child of office:text is lost with its title -/
-theorem moin_top_index_text_lost : lostIn wTopIndex = true := by decide +kernel
-/-- **C18 (MoinMoin, pending m-nested-index)**: inside a section it becomes " {text:table-of-content} " -/
-theorem moin_nested_index_text_lost : lostIn wNestedIndex = true := by decide +kernel
-/-- **C18 (MoinMoin, pending m-top-numbered-paragraph)**: a numbered paragraph that is a child of office:text is lost -/
-theorem moin_top_numbered_paragraph_text_lost : lostIn wTopNumPar = true := by decide +kernel
-/-- **C18 (MoinMoin, pending m-nested-numbered-paragraph)**: inside a cell it becomes " {text:numbered-paragraph} " -/
-theorem moin_nested_numbered_paragraph_text_lost : lostIn wNestedNumPar = true := by decide +kernel
-
-/-- a frame with a text box as a child of a SECTION or a CELL is converted completely (the corpus document
-    `block-frame-in-section-cell-box-note`): the loss is that of the loop of `toString`, not of `textToString` -/
-theorem moin_block_frame_in_section_and_cell_kept :
-    lostIn [.elem tSection [] wTopFrame, .elem tTable [] [.elem tRow [] [.elem tCell [] wTopFrame]]] = false := by
+/-- **tie to the source** (`CONTAINER_TAGS` / `elements`, regenerated): shapes, numbered paragraphs and the parts of an
+    index are containers, the index source is a template (do_nothing) -/
+theorem containers_of_the_witnesses :
+    isContainer tRect = true ∧ isContainer tNumPar = true ∧ isContainer tToc = true ∧ isContainer tIndexBody = true ∧
+    isContainer tIndexTitle = true ∧ isContainer tTocSource = false ∧ moinMethod tTocSource = some .do_nothing := by
   decide +kernel
 
-/-- **C18 (MoinMoin): the full statement is false in the model** — `MoinTotalCompleteFull` fails on the document with a
-    frame between two paragraphs directly in office:text -/
+/-- **C18 (MoinMoin, m-top-frame repaired)**: the text box of a frame that is a child of office:text is kept -/
+theorem moin_top_frame_text_kept : lostIn wTopFrame = false := by decide +kernel
+/-- **C18 (MoinMoin, m-top-shape repaired)**: the paragraphs of a drawing shape that is a child of office:text are kept -/
+theorem moin_top_shape_text_kept : lostIn wTopShape = false := by decide +kernel
+/-- **C18 (MoinMoin, m-nested-shape repaired)**: a drawing shape inside running text is converted with its paragraphs -/
+theorem moin_nested_shape_text_kept : lostIn wNestedShape = false := by decide +kernel
+/-- **C18 (MoinMoin, m-top-index repaired)**: a table of content that is a child of office:text is kept with its title -/
+theorem moin_top_index_text_kept : lostIn wTopIndex = false := by decide +kernel
+/-- **C18 (MoinMoin, m-nested-index repaired)**: also inside a section -/
+theorem moin_nested_index_text_kept : lostIn wNestedIndex = false := by decide +kernel
+/-- **C18 (MoinMoin, m-top-numbered-paragraph repaired)**: a numbered paragraph that is a child of office:text is kept -/
+theorem moin_top_numbered_paragraph_text_kept : lostIn wTopNumPar = false := by decide +kernel
+/-- **C18 (MoinMoin, m-nested-numbered-paragraph repaired)**: also inside a cell -/
+theorem moin_nested_numbered_paragraph_text_kept : lostIn wNestedNumPar = false := by decide +kernel
+
+/-- what the model (and the converter) writes for `wTopFrame`: a, blank line, 2, blank line, b -/
+example : (Moin.toString exStyles (exContent wTopFrame)).toOption = some [97, 10, 10, 50, 10, 10, 98, 10] := by decide +kernel
+
+/-- **C18 (MoinMoin): the containers are inside the proved quantifier** — the seven witnesses are `MoinSupported`
+    documents, so `moin_supported_total_complete_partial` applies to them (and to every document built the same way) -/
+theorem witnesses_supported : ∀ w ∈ [wTopFrame, wTopShape, wNestedShape, wTopIndex, wNestedIndex, wTopNumPar, wNestedNumPar],
+    MoinSupported exStyles (exContent w) w := by
+  obtain ⟨hRect, hNum, hToc, hBody, hTitle, hSrcC, hSrcM⟩ := containers_of_the_witnesses
+  have sp : ∀ c, Sup (par c) := fun c => .para tP [] _ (Or.inl rfl) (Or.inl rfl) (.cons _ _ (.text _) .nil)
+  have one : ∀ n, Sup n → SupL [n] := fun n h => .cons _ _ h .nil
+  have tp : ∀ c rest, TopL rest → TopL (par c :: rest) := fun c rest h =>
+    .para tP [] _ rest (Or.inr (Or.inl rfl)) (Or.inl rfl) (.cons _ _ (.text _) .nil) h
+  have nbSrc : notBlock tTocSource := by refine ⟨hSrcC, ?_, ?_, ?_, ?_, ?_⟩ <;> decide
+  have kToc : SupL [.elem tTocSource [] [], .elem tIndexBody [] [.elem tIndexTitle [] [par 49], par 50]] :=
+    .cons _ _ (.leaf tTocSource [] [] .do_nothing nbSrc hSrcM rfl ⟨rfl, rfl⟩)
+      (one _ (.box tIndexBody [] _ hBody (.cons _ _ (.box tIndexTitle [] _ hTitle (one _ (sp 49))) (one _ (sp 50)))))
+  have sToc : Sup toc := .box tToc [] _ hToc kToc
+  have sNum : Sup (.elem tNumPar [] [par 50]) := .box tNumPar [] _ hNum (one _ (sp 50))
+  have three : ∀ n, Sup n → SupL [par 97, n, par 98] := fun n h => .cons _ _ (sp 97) (.cons _ _ h (one _ (sp 98)))
+  intro w hw
+  simp only [List.mem_cons, List.not_mem_nil, or_false] at hw
+  rcases hw with rfl | rfl | rfl | rfl | rfl | rfl | rfl
+  · refine MoinSupported.mk {} (.elem tBody [] [.elem tText [] _]) [] (.elem tText [] _) [] rfl rfl rfl (tp 97 _ (.box tFrame [] _ _ isContainer_frame
+      (one _ (.box tTextBox [] _ isContainer_textBox (one _ (sp 50)))) (tp 98 _ .nil)))
+  · refine MoinSupported.mk {} (.elem tBody [] [.elem tText [] _]) [] (.elem tText [] _) [] rfl rfl rfl (tp 97 _ (.box tRect [] _ _ hRect (one _ (sp 50)) (tp 98 _ .nil)))
+  · refine MoinSupported.mk {} (.elem tBody [] [.elem tText [] _]) [] (.elem tText [] _) [] rfl rfl rfl (.para tP [] _ [] (Or.inr (Or.inl rfl)) (Or.inl rfl)
+      (.cons _ _ (.text _) (.cons _ _ (.box tRect [] _ hRect (one _ (sp 50))) (one _ (.text _)))) .nil)
+  · refine MoinSupported.mk {} (.elem tBody [] [.elem tText [] _]) [] (.elem tText [] _) [] rfl rfl rfl (tp 97 _ (.box tToc [] _ _ hToc kToc (tp 98 _ .nil)))
+  · refine MoinSupported.mk {} (.elem tBody [] [.elem tText [] _]) [] (.elem tText [] _) [] rfl rfl rfl (.box tSection [] _ [] isContainer_section (three _ sToc) .nil)
+  · refine MoinSupported.mk {} (.elem tBody [] [.elem tText [] _]) [] (.elem tText [] _) [] rfl rfl rfl (tp 97 _ (.box tNumPar [] _ _ hNum (one _ (sp 50)) (tp 98 _ .nil)))
+  · refine MoinSupported.mk {} (.elem tBody [] [.elem tText [] _]) [] (.elem tText [] _) [] rfl rfl rfl (.table [] _ [] (.row [] _ [] (.cell tCell [] _ [] (by decide) (three _ sNum) .nil) .nil) .nil)
+
+def tLine : Str := [100, 114, 97, 119, 58, 108, 105, 110, 101]  -- draw:line
+def tGroup : Str := [100, 114, 97, 119, 58, 103]  -- draw:g
+
+/-- **C18 (MoinMoin, pending m-top-shape-unlisted / m-nested-shape-unlisted)**: draw:line and draw:g (a group of shapes)
+    hold paragraphs too but are not in `CONTAINER_TAGS`: as children of office:text and inside running text their
+    paragraphs are still lost (corpus document `moin-line-and-group`; the real converter gives the same strings) -/
+theorem moin_line_and_group_text_lost :
+    lostIn [par 97, .elem tLine [] [par 50], par 98] = true ∧ lostIn [par 97, .elem tGroup [] [.elem tRect [] [par 50]], par 98] = true ∧
+    lostIn [.elem tP [] [.text [97], .elem tLine [] [par 50], .text [98]]] = true ∧
+    lostIn [.elem tP [] [.text [97], .elem tGroup [] [.elem tRect [] [par 50]], .text [98]]] = true := by
+  decide +kernel
+
+/-- **C18 (MoinMoin): the full statement is still false in the model** — not for a container any more, but for a
+    text:number inside a list item (generated numbering; the harness does not demand it): `MoinTotalCompleteFull` quantifies
+    over every text node of the document -/
 theorem moinTotalCompleteFull_false : ¬ MoinTotalCompleteFull := by
+  let w : List Node := [.elem tList [] [.elem tListItem [] [.elem tNumber [] [.text [49, 46]], .elem tP [] [.text [105]]]]]
   intro h
-  obtain ⟨out, ho, hs⟩ := h exStyles (exContent wTopFrame) (.elem tBody [] [.elem tText [] wTopFrame]) []
-    (.elem tText [] wTopFrame) [] rfl rfl
-  have hl := moin_top_frame_text_lost
+  obtain ⟨out, ho, hs⟩ := h exStyles (exContent w) (.elem tBody [] [.elem tText [] w]) []
+    (.elem tText [] w) [] rfl rfl
+  have hl : lostIn w = true := by decide +kernel
   unfold lostIn at hl
   rw [ho] at hl
-  have hk : kidsOf (.elem tText [] wTopFrame) = wTopFrame := rfl
+  have hk : kidsOf (.elem tText [] w) = w := rfl
   rw [hk] at hs
   simp [hs] at hl
 
